@@ -157,7 +157,7 @@ impl Admin {
     pub const fn new(ns: &str) -> (r: Admin) { Admin {} }
     #[verifier::external_body]
     pub fn is_admin(&self, deps: Deps, caller: &Addr) -> (r: StdResult<bool>)
-        ensures r is Ok ==> r->Ok_0 == (deps.storage.view().admin == Some(*caller)),
+        ensures r is Ok, r->Ok_0 == (deps.storage.view().admin == Some(*caller)),   // a typed-cell load of a present or absent value never fails (T3/T4)
     { unimplemented!() }
     #[verifier::external_body]
     pub fn get(&self, deps: Deps) -> (r: StdResult<Option<Addr>>)
